@@ -44,9 +44,22 @@ def jobs(tier, rng):
                 out.append(dict(mols=[m], nroots=nr, method="cis", tol=1e-6, reuse=False))
     out.append(dict(mols=["h2co"], nroots=3, method="cis", tol=1e-9, reuse=False, max_iter=2))  # cap must raise
     out.append(dict(mols=["h2co"], nroots=2, method="rpa", tol=1e-6, reuse=True))           # amplitude reuse with RPA
+    # RPA: amplitude reuse along a displaced geometry, homogeneous batches whose rows converge at different iterations (both orders)
+    rp = []
+    for mols in (["h2co"], ["h2o"], ["nh3"]):
+        for nr in (1, 2, 3):
+            rp.append(dict(mols=mols, nroots=nr, method="rpa", tol=1e-6, reuse=True))
+    for mols in (["h2co", "h2co_d"], ["h2co_d", "h2co"], ["h2o", "h2o_d"], ["h2o_d", "h2o"]):
+        for nr in (1, 2, 3):
+            rp.append(dict(mols=mols, nroots=nr, method="rpa", tol=1e-6, reuse=False))
+            rp.append(dict(mols=mols, nroots=nr, method="cis", tol=1e-6, reuse=False))
+    special = out[-4:]
     if tier == "quick":
-        must = out[-4:] + [j for j in out if j["mols"] in (["h2o", "h2co"], ["h2o"], ["h2co"]) and j["nroots"] in (3, 6) and j["tol"] == 1e-6 and j["method"] == "cis" and not j["reuse"]]
-        out = must + rng.sample([j for j in out if j not in must], 30)
+        small = [j for j in out if j["mols"] in (["h2o", "h2co"], ["h2o"], ["h2co"]) and j["nroots"] in (3, 6) and j["tol"] == 1e-6 and j["method"] == "cis" and not j["reuse"]]
+        must = special + small
+        out = must + rng.sample([j for j in out if j not in must], 30) + rp
+    else:
+        out += rp
     for n, j in enumerate(out):
         j["id"] = "d%04d" % n
     return out
@@ -93,6 +106,8 @@ def main(tier):
                 energies[(tuple(j["mols"]), m, j["method"], j["nroots"], tol, j["reuse"])] = E
             if "gram_dev" in o and o["gram_dev"] > 1e-8:
                 rep.violation("amplitudes_not_orthonormal", {"job": j, "gram_dev": o["gram_dev"]}, **fields)
+            if "rpa_norm_dev" in o and o["rpa_norm_dev"] > 1e-8:
+                rep.violation("amplitudes_not_orthonormal", {"job": j, "rpa_norm_dev": o["rpa_norm_dev"]}, **fields)
             if "residual" in o and o["residual"] > 10 * tol:
                 rep.violation("residual_above_tolerance", {"job": j, "residual": o["residual"], "tol": tol}, **fields)
             if "dense_lowest" in o:
@@ -188,6 +203,6 @@ def main(tier):
             "evaluations": len(js), "distinct_nontrivial": len([j for j in js if j["nroots"] > 1 or len(j["mols"]) > 1 or j["reuse"]]),
             "rule": "jobs molecule/batch x number of roots x tolerance x amplitude reuse x CIS/RPA; non-trivial = several roots, a batch or amplitude reuse", "exhaustive": tier == "thorough",
         }
-        return rep.finish(cov, assumptions=["dense reference matrix assembled with the code's own sigma routine (nov <= 40)", "RPA and heterogeneous-batch solvers are checked at API level only (no hooks)"])
+        return rep.finish(cov, assumptions=["dense reference matrix assembled with the code's own sigma routine (nov <= 40)", "RPA and heterogeneous-batch solvers have no hooks: API-level predicates only (RPA: residual of both coupled equations, X.X - Y.Y = 1, dense (A-B)(A+B) spectrum)"])
     finally:
         common.rm(scratch)
